@@ -497,6 +497,15 @@ def fingerprint(name, scn, ev, idx):
     if name in ("CleanupBeforeEnd", "NoStepAfterEnd", "TerminationObserved", "FailStopSafe", "CauseFaithful", "FailStopObserved"):
         ret = next((x for x in ev if x["e"] == "AcceptRet" and x.get("r") == 1), None)
         fp["accept_exc"] = ret.get("exc", "") if ret else "(still running)"
+    if name in ("FailStopWhileStopping", "FailStopSafe", "CauseFaithful"):
+        # did a payload interrupt (raise KeyboardInterrupt) AFTER another one had failed, while
+        # the runtime was closing - and in which flavour?
+        allp = {**scn["payloads"], **scn.get("services", {})}
+        first_fail = next((i for i, x in enumerate(ev) if x["e"] == "End" and x.get("how") in ("val", "exc", "base")), None)
+        late_kbd = [x["p"] for i, x in enumerate(ev) if first_fail is not None and i > first_fail and x["e"] == "End" and x.get("how") == "kbd"]
+        fp["interrupted_while_closing"] = bool(late_kbd)
+        if late_kbd:
+            fp["interrupting_flavour"] = allp.get(late_kbd[0], {}).get("flavour", "")
     if name == "ExecOutcomeIdentity":
         # which exception type came back as another object, from which flavour's runner
         fp["exception"] = e.get("exc", "")
